@@ -19,7 +19,7 @@ func propC16() Property {
 		Explanation: "Sibling agreement of every in-module MessageStore implementation (memory, file, sql, mongo — the last is analysed although it cannot be run offline). " +
 			"R1 write-through: a persistent store updates its cache counter only on the nil-error edge of the medium write of the same value and the same direction. R2 location agreement: the medium location written for the outbound (inbound) counter is the one the loader feeds back into the outbound (inbound) cache counter — file handle ↔ file name pairing, SQL column ↔ scan position, document field; sender and target never cross. " +
 			"R3 range: the iteration callback runs only for begin <= seq <= end in ascending order and its error propagates. R4 reset/refresh shape: reset empties the cache, deletes the stored messages and persists fresh counters/creation time; refresh resets the cache and reloads. R5: Incr* = Set*(cache.Next*()+1) of the same direction (memory: Incr/Set/Next agree on one field per direction, Next = field+1, Set stores next-1). " +
-			"R6: save-and-increment = save (nil error) then increment of the outbound counter, or one transaction. R7: no error from the medium is dropped (tabulated: deferred Close/Rollback).",
+			"R6: save-and-increment = save (nil error) then increment of the outbound counter, or one transaction. R7: no error from the medium is dropped (tabulated: deferred Close/Rollback). R8 (shared with C17): the file store rewrites a counter from offset 0 without truncating, so the text must have a fixed width; with a variable width a shorter number leaves the tail of a longer one on disk and a refreshed or reopened store reads a different counter than the running one reports.",
 		NotDecided: "equivalence with the abstract store over operation histories, byte-identity of stored messages, durability (C17), behaviour of the database drivers.",
 		Rules: []RuleDef{
 			{ID: "C16-R1", Desc: "write-through: cache after medium, same value, same direction", Min: 6, Run: c16R1},
@@ -29,6 +29,7 @@ func propC16() Property {
 			{ID: "C16-R5", Desc: "Incr = Set(Next+1), same direction", Min: 8, Run: c16R5},
 			{ID: "C16-R6", Desc: "save-and-increment = save then increment / one transaction", Min: 4, Run: c16R6},
 			{ID: "C16-R7", Desc: "error discipline in store packages", Min: 20, Run: c16R7},
+			{ID: "C16-R8", Desc: "file counters are rewritten in place at fixed width (= C17-R3)", Min: 3, Run: c17R3},
 		},
 	}
 }
@@ -754,6 +755,30 @@ func c16R4(c *Ctx) {
 		}
 		c.Check(deletes, FuncName(reset), p.Pos(reset.Pos()), "reset-deletes:"+tn, "Reset deletes the stored messages on the medium", "Reset leaves the stored messages on the medium: a later replay would resend messages of the previous epoch")
 		c.Check(persists, FuncName(reset), p.Pos(reset.Pos()), "reset-persists:"+tn, "Reset persists the fresh counters/creation time after resetting the cache", "Reset does not write the fresh counters and creation time to the medium after resetting the cache: a reopened store would resume the old epoch")
+		// the renewed creation time is read back from the cache by the persisting step
+		ctRead := false
+		scope := []*ssa.Function{reset}
+		viaRefresh := false
+		for _, cl := range Calls(reset) {
+			if cl.Common().StaticCallee() == refresh && refresh != nil {
+				viaRefresh = true
+			}
+		}
+		if viaRefresh {
+			for fn := range p.Reachable([]*ssa.Function{refresh}, false) {
+				if fnPkg(fn) == fnPkg(reset) {
+					scope = append(scope, fn)
+				}
+			}
+		}
+		for _, fn := range scope {
+			for _, cl := range s.cacheCalls(p, fn) {
+				if cl.Common().Method.Name() == "CreationTime" && (fn != reset || cr == nil || InstrDominates(cr, cl)) {
+					ctRead = true
+				}
+			}
+		}
+		c.Check(ctRead, FuncName(reset), p.Pos(reset.Pos()), "reset-persists-creation-time:"+tn, "the step that persists the reset state reads the renewed creation time from the cache", "Reset never reads the cache's renewed creation time after resetting it, so it cannot have written it to the medium: the store itself reports the new creation time but Refresh or a fresh store on the same medium reports the previous epoch's")
 		// Refresh: cache.Reset before load
 		rr := cacheReset(refresh)
 		loadAfter := false
